@@ -31,7 +31,7 @@ ROUTES = ["tree_copy", "node_copy_self", "node_copy_noself", "copy_to_self", "co
 KNOWN_KIND = "typed.copied-top-node-gets-default-kind"
 
 
-def make_tree(rng, typed, name, nmax=12, nmin=0, subclass=False):
+def make_tree(rng, typed, name, nmax=12, nmin=0, subclass=False, hook=False):
     from nutree import Tree
     from nutree.typed_tree import TypedTree
 
@@ -63,6 +63,12 @@ def make_tree(rng, typed, name, nmax=12, nmin=0, subclass=False):
     wrap = rng.choice(["str", "str", "tuple", "fwd"]) if not typed else rng.choice(["str", "str", "tuple"])
     if wrap == "fwd" and not subclass:
         t = Tree(name, forward_attrs=True, calc_data_id=lambda tree, d: hash(d.key) if isinstance(d, _Fwd) else hash(d))
+    rule = hash
+    if hook and not subclass and wrap == "str":
+        # this tree has an id rule of its own (another one than the tree it exchanges copies with): copies carry the ids of
+        # their *source*, whatever the rule of the tree they arrive in says
+        rule = lambda lab, _n=name: f"hk:{_n}:{lab}"  # noqa: E731
+        t = (TypedTree if typed else Tree)(name, calc_data_id=lambda tree, d, _n=name: f"hk:{_n}:{d}")
     for i in range(n):
         used = {ids[j] for j in range(i) if par[j] == par[i]}
         for _ in range(60):
@@ -71,11 +77,11 @@ def make_tree(rng, typed, name, nmax=12, nmin=0, subclass=False):
             else:
                 lab = rng.choice("abcde")
                 did = rng.choice([None, None, "X", "Y", 7, lab + "_id", 0, ""]) if mode == "ids" else None
-            eff = hash(lab) if did is None else did
+            eff = rule(lab) if did is None else did
             if eff not in used:
                 break
         else:
-            lab, did, eff = f"{name}{i}", None, hash(f"{name}{i}")
+            lab, did, eff = f"{name}{i}", None, rule(f"{name}{i}")
         labs.append(lab)
         ids.append(eff)
     # data objects: str subclasses instances would break hash equality; use plain str but *distinct objects* per clone group
@@ -97,7 +103,7 @@ def make_tree(rng, typed, name, nmax=12, nmin=0, subclass=False):
     base = rng.choice([5000, 70000])
     nids = [base + i if rng.random() < 0.3 else None for i in range(n)]
     nodes = gen.build(t, f, label, kind=(lambda i: kinds[i]) if typed else None,
-                      data_id=lambda i: None if ids[i] == hash(labs[i]) else ids[i], node_id=lambda i: nids[i])
+                      data_id=lambda i: None if ids[i] == rule(labs[i]) else ids[i], node_id=lambda i: nids[i])
     for nd in nodes:
         if rng.random() < 0.4:
             nd.set_meta("m0", rng.randrange(100))  # some source nodes carry metadata before they are copied
@@ -187,10 +193,10 @@ def run_case(case, res):
     known = False
     try:
         with case_deadline(60):
-            src_t, src_nodes = make_tree(rng, typed, "s", nmin=1)
+            src_t, src_nodes = make_tree(rng, typed, "s", nmin=1, hook=rng.random() < 0.15)
             # the target may belong to a user subclass of the tree class (the source is of the base class)
             sub = route in ("tree_copy_to", "copy_to_self", "copy_to_noself", "add_tree", "add_node") and rng.random() < 0.3
-            other_t, other_nodes = make_tree(rng, typed, "o", nmax=6, subclass=sub)
+            other_t, other_nodes = make_tree(rng, typed, "o", nmax=6, subclass=sub, hook=rng.random() < 0.3)
             if sub:
                 res.count("subclass_targets")
             src = rng.choice(src_nodes)
